@@ -653,6 +653,27 @@ def run(ck):
                 gd = any(b > a for a, b in zip(c["pressure"][1:], c["pressure"][:-1]))
             if rj.iso_id != id0:
                 ck.fail_case({**sig, "clause": "same content, different identifier", "route": "parse of an export", "all_ads_marks_but_guess_differs": gd}, {"ids": [id0, rj.iso_id], "content": c6full(c)})
+            elif not (rj == iso) or not (iso == rj) or (rj != iso):
+                # `==` is the identifier comparison and nothing finer (round 6, C05-m11: a dictionary comparison put in front of it
+                # separates a tuple from the list it is exported as, and one NaN object from another)
+                ck.fail_case({**sig, "clause": "same identifier, but == says different", "route": "parse of an export"}, {"ids": [id0, rj.iso_id], "content": c6full(c)})
+            # metadata values whose Python comparison is finer than their exported text: a tuple (exported as a list) and NaN
+            # (every NaN object differs from every other); built twice from the same literals and re-parsed
+            if i % 4 == 0:
+                for label, mk in (("tuple", lambda: (1, 2.5, "x")), ("nan", lambda: float("nan")), ("nested tuple", lambda: [(1, 2), 3])):
+                    a = isogen.build(pg, c); b = isogen.build(pg, c)
+                    a.properties = dict(a.properties, odd_value=mk())
+                    b.properties = dict(b.properties, odd_value=mk())
+                    ck.count(("odd-meta", label, i), bucket="route:metadata value finer than its export (" + label + ")")
+                    try:
+                        rb = isotherm_from_json(isotherm_to_json(a))
+                        same = [a.iso_id == b.iso_id, a == b, b == a, rb.iso_id == a.iso_id, rb == a, a == rb]
+                    except Exception as e:  # noqa
+                        ck.fail_case({**sig, "clause": "route refused", "route": "metadata value " + label}, {"error": repr(e)[:200]})
+                        continue
+                    if not (same[0] == same[1] == same[2]) or not (same[3] == same[4] == same[5]):
+                        ck.fail_case({**sig, "clause": "same identifier, but == says different", "route": "metadata value " + label},
+                                     {"[id a=b, a==b, b==a, id parse=a, parse==a, a==parse]": same, "content": c6short(c)})
         except Exception as e:  # noqa
             ck.fail_case({**sig, "clause": "route refused", "route": "json"}, {"error": repr(e)[:200]})
         # ---------------------------------------------------------------- reads do not change it
